@@ -1002,6 +1002,9 @@ fn run_case(case: &J) -> J {
         return json!({"error": format!("script does not parse: {}", e.chars().take(300).collect::<String>())});
     }
 
+    // set by the generator for scripts made of calls over scalars only (no stream, canon, fold, error variable): every
+    // argument of every call is then a function of the script alone, whatever part of the results a peer has seen
+    let scalar_only = case["scalar_only"].as_bool().unwrap_or(false);
     let (net, recs) = run_history(&script, &peers, init, &services, &particle, &ops);
     let (_net2, recs2) = run_history(&script, &peers, init, &services, &other, &ops);
     let aligned = recs.len() == recs2.len() && recs.iter().zip(recs2.iter()).all(|(a, b)| a.rec.peer == b.rec.peer && a.from == b.from);
@@ -1025,7 +1028,7 @@ fn run_case(case: &J) -> J {
         let mut found = false;
         for k in 0..deliveries.len() {
             let di = deliveries[(k0 + k) % deliveries.len()];
-            match one_tamper(ti, t, &recs[di], if aligned { Some(&recs2[di]) } else { None }, &peer_objs, &net, &genuine, &particle, &other) {
+            match one_tamper(ti, t, &recs[di], if aligned { Some(&recs2[di]) } else { None }, &peer_objs, &net, &genuine, &particle, &other, scalar_only) {
                 Ok((term, cls, info)) => {
                     terms.push(term);
                     classes.push(cls);
@@ -1046,7 +1049,7 @@ fn run_case(case: &J) -> J {
 }
 
 #[allow(clippy::too_many_arguments)]
-fn one_tamper(ti: usize, t: &J, r: &Rec, r2: Option<&Rec>, peers: &[Peer], net: &Net, genuine: &Genuine, particle: &str, other: &str) -> Result<(String, String, J), String> {
+fn one_tamper(ti: usize, t: &J, r: &Rec, r2: Option<&Rec>, peers: &[Peer], net: &Net, genuine: &Genuine, particle: &str, other: &str, scalar_only: bool) -> Result<(String, String, J), String> {
     let s_idx = r.from.ok_or("no sender")?;
     let v_idx = r.rec.peer;
     let attacker = &peers[s_idx];
@@ -1166,6 +1169,23 @@ fn one_tamper(ti: usize, t: &J, r: &Rec, r2: Option<&Rec>, peers: &[Peer], net: 
                 }
             }
         }
+        // (C) scalar-only scripts: a call of the victim has the same arguments in every run that binds its variables to
+        // results their owners produced for those very instructions; a request with other arguments than the honest
+        // history's request for that function means a result was accepted at an instruction it was not produced for
+        if scalar_only && !touched_own {
+            let host = &net.hosts[v_idx];
+            let honest: Vec<&Req> = host.log.iter().map(|x| &x.1).chain(host.pending.values())
+                .chain(r.rec.out.requests.iter().flat_map(|m| m.values())).collect();
+            for q in out.requests.iter().flat_map(|m| m.values()) {
+                let same_fn: Vec<&&Req> = honest.iter().filter(|h| h.service == q.service && h.function == q.function).collect();
+                if !same_fn.is_empty() && !same_fn.iter().any(|h| h.args == q.args) {
+                    let cls = if applied.iter().any(|a| a.unused) { "unused" } else if applied.iter().any(|a| a.kind == "kind_failed_executed") { "kind" } else { "result" };
+                    reasons.push((cls.into(), format!("the victim requests {}.{} with arguments {} ; in the honest history it only ever requests it with {}", q.service, q.function,
+                        J::Array(q.args.clone()), J::Array(same_fn.iter().map(|h| J::Array(h.args.clone())).collect()))));
+                    forged_present = true;
+                }
+            }
+        }
     }
     reasons.sort();
     reasons.dedup();
@@ -1244,7 +1264,7 @@ fn one_tamper(ti: usize, t: &J, r: &Rec, r2: Option<&Rec>, peers: &[Peer], net: 
         "bad_entries": bad.len(), "real_cid_info_verify": real_cid_ok, "dangling": att_c.is_none(),
         "trace_len": cur.trace.len(), "honest_code": r.rec.out.code,
         "requests": out.requests.as_ref().map(|m| m.len()), "honest_requests": r.rec.out.requests.as_ref().map(|m| m.len()),
+        "request_list": requests_json(&out.requests), "honest_request_list": requests_json(&r.rec.out.requests),
     });
-    let _ = net;
     Ok((term, cls, info))
 }
